@@ -58,10 +58,14 @@ Definition moved_ok (c : moved_case) : bool := Bool.eqb (is_moved_to_start (mc_i
 Definition bad_moved (cs : list moved_case) : list nat := bad moved_ok cs 0.
 
 (* _convert_indices_to_tensors *)
+(* leading singleton dimensions of an index tensor are irrelevant (broadcasting aligns shapes on the right): the
+   comparison ignores them, so that a rewrite which pads differently on the left does not alarm *)
+Fixpoint strip1 (sh : list nat) : list nat :=
+  match sh with 1%nat :: r => strip1 r | _ => sh end.
 Fixpoint ltens_eqb (a b : list (list nat * list Z)) : bool :=
   match a, b with
   | [], [] => true
-  | (s1, d1) :: r, (s2, d2) :: s => lnat_eqb s1 s2 && lz_eqb d1 d2 && ltens_eqb r s
+  | (s1, d1) :: r, (s2, d2) :: s => lnat_eqb (strip1 s1) (strip1 s2) && lz_eqb d1 d2 && ltens_eqb r s
   | _, _ => false
   end.
 Record conv_case := VC { vc_shape : list nat; vc_idx : list item; vc_obs : option (list (list nat * list Z)) }.
